@@ -5,7 +5,8 @@
      internal/dnsutils/msg_ttl.go GetMinimalTTL, SubtractTTL
      internal/cache/mem.go        MemoryCache.Store (time.Until, Set / SetIfAbsent), MemoryCache.Get
      otter v1.2.0                 getTTL / getExpiration (TTL rounded up to whole seconds, uint32),
-                                  node.HasExpired (expiration <= unixtime.Now()), GetNode (expired => delete task),
+                                  node.HasExpired (expiration <= unixtime.Now()), GetNode (expired => miss + delete task,
+                                  which does NOT remove the node from the hash table), cleanup (removes expired nodes),
                                   hashtable set(onlyIfAbsent) (refuses whenever a node with the key is *present*,
                                   expired or not), the 1 s ticker clock internal/unixtime
      app/router/router.go         handleReq / doPrefetch: which branches reach cache.Store
@@ -182,7 +183,8 @@ Definition cachectl_get (st : state) (t : Z) (k : key) : state * out :=
   | None => (st, OMiss)
   | Some e =>
     if has_expired (st_clk st) e
-    then (mkState (st_clk st) (remove k (st_map st)), OMiss)          (* newDeleteTask(n) *)
+    then (st, OMiss)   (* GetNode pushes newDeleteTask(n): that task updates the eviction / expiry policies only;
+                          the node STAYS in otter's hash table (expired) until overwritten by Set or collected *)
     else (st, OHit (subtract_ttl (elapsed_secs t (e_stored e)) (e_msg e)) (e_stored e) (e_expire e))
   end.
 
@@ -191,13 +193,19 @@ Inductive event :=
 | EvTick (c : N)                                              (* the ticker goroutine publishes a new reading *)
 | EvStore (t eps : Z) (k : key) (resp : option msg) (packok : bool)
 | EvGet (t : Z) (k : key)
-| EvEvict (k : key).                                          (* cleanup of an expired node / size eviction: any key, any time *)
+| EvCollect (k : key)                                         (* otter's cleanup goroutine removes the node if it has expired *)
+| EvEvict (k : key).                                          (* size eviction: any key, any time *)
 
 Definition step (maximumTtl : Z) (st : state) (ev : event) : state * out :=
   match ev with
   | EvTick c => (mkState c (st_map st), OTick)
   | EvStore t eps k resp packok => cachectl_store maximumTtl st t eps k resp packok
   | EvGet t k => cachectl_get st t k
+  | EvCollect k =>
+      match find k (st_map st) with
+      | Some e => if has_expired (st_clk st) e then (mkState (st_clk st) (remove k (st_map st)), OEvicted) else (st, OTick)
+      | None => (st, OTick)
+      end
   | EvEvict k => (mkState (st_clk st) (remove k (st_map st)), OEvicted)
   end.
 
